@@ -19,6 +19,14 @@ def build(seed, variant="fresh"):
         other = pd.DataFrame({"z": pd.array([0.5, 1.5, 2.5, 3.5], dtype=pd.ArrowDtype(pa.float64()))}, index=pd.Index([5, 10, 20, 30]))
         nf = NestedFrame({"x": np.array([0.0, 1.0, 2.0, 3.0]), "y": np.array([4, 3, 2, 1])}, index=pd.Index([5, 10, 20, 30]))
         nf = nf.add_nested(flat, "n").add_nested(other, "my nest").iloc[1:]
+    elif variant == "dup_labels":
+        # a frame whose first two rows share their label (each holds the records of that label)
+        flat = pd.DataFrame({"a": pd.array([1.0, 2.0, 4.0, 5.0], dtype=pd.ArrowDtype(pa.float64())),
+                             "b c": pd.array([5, 4, 2, 1], dtype=pd.ArrowDtype(pa.int64()))},
+                            index=pd.Index([10, 10, 30, 30]))
+        other = pd.DataFrame({"z": pd.array([1.5, 3.5], dtype=pd.ArrowDtype(pa.float64()))}, index=pd.Index([10, 30]))
+        nf = NestedFrame({"x": np.array([1.0, 2.0, 3.0]), "y": np.array([3, 2, 1])}, index=pd.Index([10, 10, 30]))
+        nf = nf.add_nested(flat, "n").add_nested(other, "my nest")
     else:
         flat = pd.DataFrame({"a": pd.array([1.0, 2.0, None, 4.0, 5.0], dtype=pd.ArrowDtype(pa.float64())),
                              "b c": pd.array([5, 4, 3, 2, 1], dtype=pd.ArrowDtype(pa.int64()))},
@@ -55,6 +63,8 @@ MUT_OPS = {
     "swap_sizes": _swap_sizes,
     "field_assign": lambda f: f.__setitem__("n.a", [5.0, 4.0, 3.0, 2.0, 1.0][:int(f["n"].nest.flat_length)]
                                             + [0.5] * max(0, int(f["n"].nest.flat_length) - 5)),
+    "inplace_eval_base_to_field": lambda f: f.eval("n.fromx = x", inplace=True),
+    "inplace_eval_field": lambda f: f.eval("n.twice = n.a * 2", inplace=True),
     "inplace_query": lambda f: f.query("n.`b c` > 1", inplace=True),
     "inplace_sort": lambda f: f.sort_values("n.`b c`", inplace=True),
     "replace_nest_by_base": lambda f: f.__setitem__("my nest", np.array([1, 2, 3])),
@@ -169,17 +179,41 @@ PROBES = {
 ALL_OPS = {**PREFIX_OPS, **MUT_OPS}
 
 
-def run_history(ctx, names):
+def full_snap(f):
+    """everything a user can read off the frame (any column kinds)"""
+    cols = []
+    for c in f.columns:
+        col = f[c]
+        if isinstance(col.dtype, NestedDtype):
+            cols.append([str(c), str(col.dtype), weak_rows(export.rows_view(col.array))])
+        else:
+            cols.append([str(c), str(col.dtype), [repr(v) for v in col.tolist()]])
+    return {"index": export.labels(f.index), "cols": cols, "cls": type(f).__name__}
+
+
+def run_history(ctx, names, variant=None):
     # every third history starts from the sliced variant of the frame
     k_hist = getattr(ctx, "_hist_count", 0)
     ctx._hist_count = k_hist + 1
-    variant = "sliced" if k_hist % 3 == 2 else "fresh"
+    variant = variant or ("sliced" if k_hist % 3 == 2 else "dup_labels" if k_hist % 6 == 1 else "fresh")
     fresh = build(0, variant)
     nf = build(0, variant)
     outcomes = []
     for nm in names:
+        if nm in MUT_OPS:
+            # (the same reads on both frames; no copies)
+            before = call_real(lambda: full_snap(nf))
+            call_real(lambda: full_snap(fresh))
         r = call_real(lambda: ALL_OPS[nm](nf))
         outcomes.append("err" if "err" in r else "ok")
+        if nm in MUT_OPS and "err" in r:
+            # an in-place operation that raises has changed nothing
+            # (looked at as it is, and through a copy — which does not go through pandas' per-column item cache)
+            for how, look in (("as_is", lambda: full_snap(nf)), ("copy", lambda: full_snap(nf.copy()))):
+                after = call_real(look)
+                ctx.case(f"history.refused_inplace_no_effect.{nm}", {"prefix": list(names), "frame": variant, "raised": r.get("cls"),
+                                                                      "looked_at": how},
+                         after, None, before, features=("refused_inplace", nm, variant, how), nontrivial=True)
         if nm in MUT_OPS:
             # the reference sees the same data changes, and none of the reads / failures in between
             r2 = call_real(lambda: MUT_OPS[nm](fresh))
@@ -210,6 +244,9 @@ def run_all(ctx):
     muts = list(MUT_OPS)
     for nm in names + muts:
         run_history(ctx, [nm])
+    for nm in muts:
+        # every in-place operation also on the frame whose first two rows share their label
+        run_history(ctx, [nm], variant="dup_labels")
     # read (fills whatever is memoised) -> change the data in place -> probe
     readers = ["query_ok", "sort_ok", "dropna_ok", "reduce_ok", "getitem_quoted", "query_unknown_field", "sort_unknown",
                "setitem_wrong_length", "getitem_unknown", "eval_quoted_ok"]
